@@ -11,7 +11,7 @@ CHECKS = {
          "short-read pattern and algorithm tuple. The model is tied to /repo by replaying the real function with a controlled readinto "
          "and recording hash objects; recorded digests of real datasets are compared with independent one-shot digests."
          " Overlapping calls: six threads digest different multi-chunk files at the same time; every result must equal the one-shot digest (the model treats a call as a pure function of the file's bytes - shared state between calls would falsify that)."
-         " C16Src.lean re-checks on the statement order extracted from the current source that _get_hash_function returns a freshly constructed object in every branch and stores nothing, and that hash_checksums creates, feeds and then reads the objects; every algorithm is also requested twice and three times in one call; four threads with a filler each close shards at overlapping times and every recorded digest is recomputed. C16Conc.lean (model M-HASH-CONC: any number of calls in flight, any interleaving of their read / update steps): C16_overlapping_calls_feed_their_own_file - with a buffer and a hash state per call every finished call has fed exactly its own file - and the witnesses C16_shared_buffer_breaks_it / C16_shared_hash_state_breaks_it.",
+         " C16Src.lean re-checks on the statement order extracted from the current source that _get_hash_function returns a freshly constructed object in every branch and stores nothing, and that hash_checksums creates, feeds and then reads the objects; every algorithm is also requested twice and three times in one call; four threads with a filler each close shards at overlapping times and every recorded digest is recomputed. C16Conc.lean (model M-HASH-CONC: any number of calls in flight, any interleaving of their read / update steps): C16_overlapping_calls_feed_their_own_file - with a buffer and a hash state per call every finished call has fed exactly its own file - and the witnesses C16_shared_buffer_breaks_it / C16_shared_hash_state_breaks_it; every read and update of three real threads hashing at once is recorded in one global order and replayed on M-HASH-CONC (driver endpoint hashconc), and every call's fed slices are compared with the chunks of its own file.",
     note="Digest algorithms (hashlib, xxhash) and CPython file objects are modelled, not verified; streaming law is an explicit hypothesis.",
     ref="DESIGN.md §5 C16"),
  "C10": dict(
